@@ -334,6 +334,7 @@ pub fn main(world: &'static dyn World) -> ! {
             0
         }
         "worker" => worker(world, &a),
+        "selftest" => selftest(world, &a),
         "trace" => {
             // debugging aid: print the decoded trace of runs --from..--to of one batch
             let batch = a.batch.clone().expect("--batch");
@@ -694,6 +695,39 @@ fn check(world: &'static dyn World, a: &Args) -> i32 {
         world.name(), p.id, a.tier, a.seed, evaluations, nontrivial.len(), traces.len(), sim_ns as f64 / 1e9, wall, unlisted, known.iter().filter(|k| k.hit).count()
     );
     if unlisted > 0 { 1 } else { 0 }
+}
+
+/// Determinism self-test: for every property and batch of this world, the first N runs are executed twice — once
+/// fanned out over 16 processes in index order, once over 3 processes in reverse order — and every per-run trace
+/// hash must agree. One JSON line per batch on stdout; exit 2 on any mismatch.
+fn selftest(world: &'static dyn World, a: &Args) -> i32 {
+    let mut bad = 0u64;
+    for p in world.props() {
+        if !a.prop.is_empty() && a.prop != p.id {
+            continue;
+        }
+        let mut a2 = Args { mode: "worker".into(), prop: p.id.to_string(), tier: a.tier.clone(), seed: a.seed, jobs: a.jobs, replay: None, batch: None, from: 0, to: 0, reverse: false, scale: 1.0, no_min: true };
+        for b in &p.batches {
+            let n = ((b.quick as f64 * a.scale).ceil() as u64).clamp(1, b.quick.max(1)).min(if a.to > 0 { a.to } else { 400 });
+            a2.batch = Some(b.name.to_string());
+            let split = |jobs: u64, reverse: bool| -> Result<BTreeMap<u64, u64>, String> {
+                let mut ch = vec![];
+                for k in 0..jobs.min(n) {
+                    let (from, to) = (n * k / jobs.min(n), n * (k + 1) / jobs.min(n));
+                    if to > from { ch.push(spawn_worker(&a2, b.name, from, to, reverse, true)); }
+                }
+                Ok(collect(ch, b.name)?.iter().map(|r| (r["i"].as_u64().unwrap_or(0), r["th"].as_u64().unwrap_or(0))).collect())
+            };
+            let (h1, h2) = match (split(16, false), split(3, true)) {
+                (Ok(x), Ok(y)) => (x, y),
+                (Err(e), _) | (_, Err(e)) => { eprintln!("HARNESS-ERROR: {}", e); return 2; }
+            };
+            let mism: Vec<u64> = h1.iter().filter(|(i, h)| h2.get(i) != Some(h)).map(|(i, _)| *i).collect();
+            bad += mism.len() as u64;
+            println!("{}", json!({"world": world.name(), "property": p.id, "batch": b.name, "runs_compared": h1.len(), "mismatches": mism.len(), "first_mismatching_runs": mism.iter().take(5).collect::<Vec<_>>()}));
+        }
+    }
+    if bad > 0 { eprintln!("HARNESS-ERROR: determinism self-test found {} mismatching runs", bad); 2 } else { 0 }
 }
 
 fn replay(world: &'static dyn World, a: &Args, path: &str) -> i32 {
